@@ -643,8 +643,10 @@ class Main {
 pub fn vec_family(thorough: bool) -> Vec<Prog> {
   let mut out = vec![];
   // element types with a value alphabet and a "show"
-  let elems: [(&str, &str, [&str; 3], &str); 4] = [
-    ("int", "int", ["1", "1073741824", "(-2147483648)"], "Str.fromInt(E)"),
+  let elems: [(&str, &str, [&str; 3], &str); 5] = [
+    // ints that fit the 31-bit boxed representation, and ints that do not
+    ("int-31bit", "int", ["1", "1073741823", "(-1073741824)"], "Str.fromInt(E)"),
+    ("int-32bit", "int", ["1", "1073741824", "(-2147483648)"], "Str.fromInt(E)"),
     ("Str", "Str", ["\"a\"", "\"\"", "\"long string value\""], "E"),
     ("bool", "bool", ["true", "false", "true"], "(if E { \"T\" } else { \"F\" })"),
     ("enum", "En", ["En.A()", "En.B(5)", "En.B(-1)"], "E.show()"),
